@@ -1,7 +1,9 @@
 //! An overlay file system combining two filesystems, an upper layer with read/write access and a lower layer with only read access
 
 use crate::error::VfsErrorKind;
-use crate::{FileSystem, SeekAndRead, SeekAndWrite, VfsMetadata, VfsPath, VfsResult};
+use crate::{
+    FileSystem, SeekAndRead, SeekAndWrite, VfsFileType, VfsMetadata, VfsPath, VfsResult,
+};
 use std::collections::HashSet;
 
 use std::time::SystemTime;
@@ -72,6 +74,9 @@ impl OverlayFS {
         if let Some(index) = separator {
             let parent_path = &path[..index];
             if self.exists(parent_path)? {
+                if self.metadata(parent_path)?.file_type != VfsFileType::Directory {
+                    return Err(VfsErrorKind::Other("Parent path is not a directory".into()).into());
+                }
                 self.write_path(parent_path)?.create_dir_all()?;
                 return Ok(());
             }
@@ -114,6 +119,13 @@ impl FileSystem for OverlayFS {
 
     fn create_dir(&self, path: &str) -> VfsResult<()> {
         self.ensure_has_parent(path)?;
+        if self.exists(path)? {
+            // also covers entries that exist in a lower layer only
+            return match self.metadata(path)?.file_type {
+                VfsFileType::File => Err(VfsErrorKind::FileExists.into()),
+                VfsFileType::Directory => Err(VfsErrorKind::DirectoryExists.into()),
+            };
+        }
         self.write_path(path)?.create_dir()?;
         let whiteout_path = self.whiteout_path(path)?;
         if whiteout_path.exists()? {
@@ -128,6 +140,10 @@ impl FileSystem for OverlayFS {
 
     fn create_file(&self, path: &str) -> VfsResult<Box<dyn SeekAndWrite + Send>> {
         self.ensure_has_parent(path)?;
+        if self.exists(path)? && self.metadata(path)?.file_type == VfsFileType::Directory {
+            // a directory of a lower layer must not be shadowed by a file
+            return Err(VfsErrorKind::Other("Path is a directory".into()).into());
+        }
         let result = self.write_path(path)?.create_file()?;
         let whiteout_path = self.whiteout_path(path)?;
         if whiteout_path.exists()? {
@@ -175,8 +191,12 @@ impl FileSystem for OverlayFS {
     }
 
     fn remove_file(&self, path: &str) -> VfsResult<()> {
-        // Ensure path exists
-        self.read_path(path)?;
+        // Ensure path exists; never hide a directory that still has entries
+        if self.read_path(path)?.metadata()?.file_type == VfsFileType::Directory
+            && self.read_dir(path)?.next().is_some()
+        {
+            return Err(VfsErrorKind::Other("Not a file".into()).into());
+        }
         let write_path = self.write_path(path)?;
         if write_path.exists()? {
             write_path.remove_file()?;
@@ -188,8 +208,13 @@ impl FileSystem for OverlayFS {
     }
 
     fn remove_dir(&self, path: &str) -> VfsResult<()> {
-        // Ensure path exists
-        self.read_path(path)?;
+        // Ensure path exists, is a directory and is empty in the merged view
+        if self.read_path(path)?.metadata()?.file_type != VfsFileType::Directory {
+            return Err(VfsErrorKind::Other("Not a directory".into()).into());
+        }
+        if self.read_dir(path)?.next().is_some() {
+            return Err(VfsErrorKind::Other("Directory to remove is not empty".into()).into());
+        }
         let write_path = self.write_path(path)?;
         if write_path.exists()? {
             write_path.remove_dir()?;
